@@ -78,6 +78,7 @@ pub fn run(prop: &str, tier: &str, seed: u64, outfile: &str) {
         "C07" => gen_c07(&mut out, &mut rng, thorough),
         "C08" => gen_c08(&mut out, &mut rng, thorough),
         "C11" => gen_c11(&mut out, &mut rng, thorough),
+        "C16" => gen_c16(&mut out, &mut rng, thorough),
         _ => {
             eprintln!("unknown property {}", prop);
             std::process::exit(2);
@@ -683,6 +684,39 @@ fn gen_c11(out: &mut Out, rng: &mut Rng, thorough: bool) {
             let inp = content_class(rng, md, len, class);
             let forced = if k % 6 == 5 { Some(rng.below(8)) } else { None };
             out.job(move || select_line(&inp, e, md, v, forced));
+        }
+    }
+}
+
+// ---------------------------------------------------------------------------------------------
+// C16: terminal rendering of real symbols of all 40 sizes.
+pub fn term_line(input: &[u8], o: Opts) -> String {
+    let r = build(input, o);
+    let head = format!("term {} {} {} {} {} => ", hex(input), opt(o.ecl), opt(o.mode), opt(o.version), opt(o.mask));
+    match &r {
+        Outcome::Ok(q) => {
+            let q2 = q.clone();
+            match std::panic::catch_unwind(move || q2.to_str()) {
+                Ok(s) => format!("{}ok {} {} {}", head, q.size, matrix_hex(q), hex(s.as_bytes())),
+                Err(_) => format!("{}trap", head),
+            }
+        }
+        _ => format!("{}{}", head, outcome_short(&r)),
+    }
+}
+
+fn gen_c16(out: &mut Out, rng: &mut Rng, thorough: bool) {
+    let caps = caps();
+    for v in 0..40usize {
+        let reps = if thorough { 50 } else { 3 };
+        for k in 0..reps {
+            let e = rng.below(4);
+            let md = rng.below(3);
+            let len = if k == 0 { caps[md][e][v] } else { rng.range(0, caps[md][e][v]) };
+            let inp = content(rng, md, len);
+            let mask = if rng.chance(1, 3) { None } else { Some(rng.below(8)) };
+            let o = Opts { ecl: Some(e), mode: Some(md), version: Some(v), mask };
+            out.job(move || term_line(&inp, o));
         }
     }
 }
